@@ -107,14 +107,14 @@ theorem shape_chanOfOpen (sid : UInt16) (o : DcepOpen) : Shape (chanOfOpen sid o
 
 theorem shape_handleDcep (pl : Pl) (sid : UInt16) (data : Bytes) (hall : ∀ x ∈ pl.chans, Shape x) :
     ∀ x ∈ (handleDcep pl sid data).1.chans, Shape x := by
-  unfold handleDcep
+  simp only [handleDcep]
+  unfold dcepCore
   split
   · exact hall
   · split
     · split
       · exact hall
-      · simp only []
-        split
+      · split
         · exact hall
         · intro x hx
           simp only [List.mem_append, List.mem_singleton] at hx
@@ -176,12 +176,9 @@ def closes (c : Chan) : Nat := c.events.count ChanEv.close
 /-- Close is announced at most once, and only together with entering state Closed -/
 def CloseInv (c : Chan) : Prop := closes c ≤ 1 ∧ (c.state ≠ 3 → closes c = 0)
 
-theorem closeInv_cleanup (e : Ep) (hall : ∀ x ∈ e.rx.pl.chans, CloseInv x) :
-    ∀ x ∈ (cleanup e).rx.pl.chans, CloseInv x ∧ x.state = 3 := by
-  intro x hx
-  simp only [cleanup, List.mem_map] at hx
-  obtain ⟨c, hc, rfl⟩ := hx
-  obtain ⟨h1, h2⟩ := hall c hc
+theorem closeInv_swapClosed (c : Chan) (h : CloseInv c) : CloseInv (swapClosed c) ∧ (swapClosed c).state = 3 := by
+  obtain ⟨h1, h2⟩ := h
+  unfold swapClosed
   by_cases hs : c.state = 3
   · have : (c.state != 3) = false := by simp [hs]
     simp only [this, Bool.false_eq_true, if_false]
@@ -192,6 +189,28 @@ theorem closeInv_cleanup (e : Ep) (hall : ∀ x ∈ e.rx.pl.chans, CloseInv x) :
     refine ⟨⟨?_, ?_⟩, rfl⟩
     · simp only [closes, Chan.emit, List.count_append] at h0 ⊢; simp [h0]
     · intro hne; exact absurd rfl hne
+
+theorem closeInv_cleanup (e : Ep) (hall : ∀ x ∈ e.rx.pl.chans, CloseInv x) :
+    ∀ x ∈ (cleanup e).rx.pl.chans, CloseInv x ∧ x.state = 3 := by
+  intro x hx
+  simp only [cleanup, List.mem_map] at hx
+  obtain ⟨c, hc, rfl⟩ := hx
+  exact closeInv_swapClosed c (hall c hc)
+
+/-- every atomic step of the three Close emitters keeps "Close at most once, and only with Closed" -/
+theorem closeInv_step (c : Chan) (st : CloseStep) (h : CloseInv c) : CloseInv (closeStep c st) := by
+  cases st with
+  | cdcBegin =>
+    show CloseInv (if c.state == 3 then c else { c with state := 2 })
+    by_cases hs : c.state = 3
+    · simp only [hs, beq_self_eq_true, if_true]; exact h
+    · have hb : (c.state == 3) = false := by simpa using hs
+      simp only [hb, Bool.false_eq_true, if_false]
+      have h0 : closes c = 0 := h.2 hs
+      exact ⟨by simp only [closes] at h0 ⊢; omega, fun _ => by simpa [closes] using h0⟩
+  | cdcEnd => exact (closeInv_swapClosed c h).1
+  | guard => exact (closeInv_swapClosed c h).1
+  | pcClose => exact (closeInv_swapClosed c h).1
 
 /-! ### DCEP codec -/
 
